@@ -1507,6 +1507,14 @@ impl ConnectionHandler for VarlinkService {
                     ErrorKind::SerdeJsonDe(String::from_utf8_lossy(&buf).to_string())
                 )
             })?;
+            // a message is a JSON object: serde would also take an array in the member order
+            // of `Request`
+            if !text
+                .trim_start_matches(|c| matches!(c, ' ' | '\t' | '\n' | '\r'))
+                .starts_with('{')
+            {
+                return Err(context!(ErrorKind::SerdeJsonDe(text.to_string())));
+            }
             let req: Request = serde_json::from_str(text).map_err(|e| {
                 context!(
                     e,
